@@ -93,3 +93,10 @@ META["C08"] = {
              "fetcher/registry/finder; the finished bundle is compared with a closure computed independently of the builder."),
     "note": "lib/world.Reference is the trusted model; version-set membership is taken from go-versions, precedence is re-implemented.",
 }
+META["C14"] = {
+    "technique": "exhaustive enumeration of small dependency graphs + rapid worlds; invariants over fetcher/registry/finder call logs and the recorded trace; call-budget termination",
+    "text": ("All dependency graphs over 2 (quick) or 3 (thorough) module locations with edges none/remote/via-registry are built; logs must show "
+             "each fetch, registry query and (source, finder) analysis exactly once and correctly bracketed trace events; a callback budget "
+             "decides termination."),
+    "note": "Exhaustive within the stated graph family, sampled beyond; the closure comes from lib/world.Reference.",
+}
